@@ -226,7 +226,15 @@ async def""", ["C14", "C02"]),
     ("rsub-not-reflected", X, 'setattr(UsageExecNode, "__rsub__", reflected(_sub))', 'setattr(UsageExecNode, "__rsub__", _sub)', ["C01"]),
     ("execute-reads-priority", N, "        args = [uxn.result(results) for uxn in self.args]", "        args = [uxn.result(results) for uxn in self.args] if self.priority >= 0 else []", ["C01"]),
     ("compose-kwargs-drop-key", D, "xn.kwargs[xn_dep_name] = UsageExecNode(new_id, xn_dep.key)", "xn.kwargs[xn_dep_name] = UsageExecNode(new_id)", ["C19"]),
-    ("compose-no-deepcopy", D, "(in_id, deepcopy(self.exec_nodes[in_id])) for in_id in set_xn_ids", "(in_id, self.exec_nodes[in_id]) for in_id in set_xn_ids", ["C19"]),
+    ("compose-no-deepcopy", D, "(in_id, _copy_xn(self.exec_nodes[in_id])) for in_id in set_xn_ids", "(in_id, self.exec_nodes[in_id]) for in_id in set_xn_ids", ["C19"]),
+    ("compose-shallow-copy", D, "            xn_copy = deepcopy(xn)\n", "            xn_copy = copy(xn)\n", ["C19"]),
+    ("compose-callable-cloned-again", D, """            object.__setattr__(xn_copy, "exec_function", xn.exec_function)\n""", "", ["C19"]),
+    ("result-key-path-on-deactivated-none", U, """            if xn_result is None and self.key:
+                return None
+""", "", ["C10", "C14"]),
+    ("xn-on-node-not-unwrapped", "tawazi/_decorators.py", """        if isinstance(_func, LazyExecNode):
+            _func = _func.exec_function
+""", "", ["C01", "C03"]),
     ("compose-drop-active-rewire", D, """                if xn.active is not None and xn.active.id == old_id:
                     object.__setattr__(xn, "active", UsageExecNode(new_id, xn.active.key))
 """, "", ["C19"]),
@@ -410,10 +418,17 @@ BENIGN: List[Tuple[str, str, List[Tuple[str, str]]]] = [
 
         return deps""", """        return [*self.args, *self.kwargs.values(), *([self.active] if self.active is not None else [])]""")]),
     ("accessor-not-in", U, [("""        if self.id in results:
-            return reduce(lambda obj, key: obj.__getitem__(key), self.key, results[self.id])
+            xn_result = results[self.id]
+            # an ExecNode that didn't run (deactivated) yields None: so does every indexed / unpacked part of it
+            if xn_result is None and self.key:
+                return None
+            return reduce(lambda obj, key: obj.__getitem__(key), self.key, xn_result)
         return None""", """        if self.id not in results:
             return None
-        return reduce(lambda obj, key: obj.__getitem__(key), self.key, results[self.id])""")]),
+        xn_result = results[self.id]
+        if xn_result is None and self.key:
+            return None
+        return reduce(lambda obj, key: obj.__getitem__(key), self.key, xn_result)""")]),
     ("gate-arms-swapped", G, [("""        if cfg.RUN_DEBUG_NODES:
             nodes_to_include = original_graph.include_debug_nodes(self.leaf_nodes) + list(
                 self.nodes
@@ -614,6 +629,16 @@ def build_jobs(root: str, pids: List[str]) -> List[tuple]:
                         ov2[rel] = new_src
         for pid in pids:
             jobs.append(("benign", f"rename({old_}->{new_})", pid, root, ov2 or None))
+    # behaviour-preserving refactorings written by independent sub-agents (benign/<id>/patch.diff): every property must stay silent
+    bdir = os.path.join(VERIF_DIR, "benign")
+    if os.path.isdir(bdir):
+        for bid in sorted(os.listdir(bdir)):
+            pf = os.path.join(bdir, bid, "patch.diff")
+            if not os.path.exists(pf):
+                continue
+            ovb = _seed_overrides(root, pf)
+            for pid in pids:
+                jobs.append(("benign", f"refactoring {bid}", pid, root, ovb))
     seeded = os.path.join(VERIF_DIR, "seeded")
     if os.path.isdir(seeded):
         for sid in sorted(os.listdir(seeded)):
